@@ -6,7 +6,7 @@
    That rustc accepts the expansion (trait resolution, lifetimes, hygiene) cannot be modelled here; it is TESTED by compiling generated declarations. *)
 From Coq Require Import List Arith String.
 From Coq Require Import Lia.
-Require Import P.ParseModel P.ParseGrammar P.ParseProof P.ParsePrintModel P.ParsePrint P.ParseDecl P.ParseDeclGrammar P.ParseDeclProof P.ParseInterp P.ParseInterpProof P.ParseUsed P.ParseUsedProof.
+Require Import P.ParseModel P.ParseGrammar P.ParseProof P.ParsePrintModel P.ParsePrint P.ParseDecl P.ParseDeclGrammar P.ParseDeclProof P.ParseInterp P.ParseInterpProof P.ParseUsed P.ParseUsedProof P.ParseHeader P.ParseHeaderProof.
 Theorem parse_complete : forall t rest, wf t -> stop rest -> next_type (S (depth t)) (lex t ++ rest) = Ok (Some (embed t)) rest.
 Proof. exact ParseProof.parse_complete. Qed.
 (* what the templates consume of an `Option<X>` field: the base name and the wrapped type *)
@@ -146,6 +146,70 @@ Proof. exact ParseUsedProof.array_lens_exact. Qed.
    exactly (ParseUsedProof.param_behind_reference_not_seen: Option<&'a T> does not count T, &'a T and Vec<(T, u8)> do). *)
 Theorem param_used_exact : forall n t, wf t -> param_used n (embed t) = used_spec n t.
 Proof. exact ParseUsedProof.param_used_exact. Qed.
+Local Open Scope string_scope. Local Open Scope list_scope. Local Open Scope bool_scope.
+(* the code TEMPLATES that splice names, generics and bounds (derive/src/difference.rs, with Generic::ident_only / ident_with_const /
+   full_with_const / has_where_bounds of derive/src/parse.rs; model P/ParseHeader.v: the token list of every item header of the expansion,
+   compared with the real expansion on every generated declaration under several feature sets).
+   (a) Every generated impl header of a STRUCT - `impl<..> StructDiff for S<..> where ..` and, with generated setters, `impl<..> S<..> where ..` -
+   declares the declared parameters in declaration order (bounds and defaults dropped, a const parameter with its type), applies the type
+   to exactly these, and its where clause repeats EVERY requirement the declaration states: each inline bound of a lifetime or type
+   parameter, each bound a where clause adds to a parameter, each where-clause item over a compound type (good_impl_header / reqs). rustc
+   needs exactly this for `S<..>` to be well-formed inside the impl. The HashSet pass over the bounds may reorder and de-duplicate, nothing else. *)
+Theorem struct_impl_headers_good : forall dedup_ty dedup_lt,
+  (forall l x, In x (dedup_ty l) <-> In x l) -> (forall l x, In x (dedup_lt l) <-> In x l) ->
+  forall fuel c gs d, wf_decl fuel d ->
+  let hs := struct_headers c gs (expected dedup_ty dedup_lt d) in
+  (exists h, nth_error hs 3 = Some h /\ good_impl_header h (TId "StructDiff" :: TId "for" :: nil) (d_name d) (d_generics d)) /\
+  (gs && any_setter (expected dedup_ty dedup_lt d) = true -> exists h, nth_error hs 6 = Some h /\ good_impl_header h nil (d_name d) (d_generics d)) /\
+  (gs && any_setter (expected dedup_ty dedup_lt d) = false -> List.length hs = 6).
+Proof. exact ParseHeaderProof.struct_impl_headers_good. Qed.
+(* (b) the same for the impl header of an ENUM *)
+Theorem enum_impl_header_good : forall dedup_ty dedup_lt,
+  (forall l x, In x (dedup_ty l) <-> In x l) -> (forall l x, In x (dedup_lt l) <-> In x l) ->
+  forall fuel c e, wf_enum fuel e ->
+  exists h, nth_error (enum_headers c (expected_enum dedup_ty dedup_lt e)) 3 = Some h /\
+            good_impl_header h (TId "StructDiff" :: TId "for" :: nil) (en_name e) (en_generics e).
+Proof. exact ParseHeaderProof.enum_impl_header_good. Qed.
+(* (c) which parameters the diff enums of a struct DECLARE (used_generics: what each unskipped field contributes, then the pass in declaration
+   order with its HashSet of names and Vec::contains): exactly the declared parameters whose name some unskipped field type mentions - as
+   its own path, in Type::wraps(), among its lifetimes or its named array lengths - in declaration order, each once. *)
+Theorem diff_enum_params_exact : forall dedup_ty dedup_lt fuel d, wf_decl fuel d ->
+  diff_enum_params dedup_ty dedup_lt d =
+  filter (fun x => key_used (field_types d) (gkey x)) (no_where (exp_generics dedup_ty dedup_lt (d_generics d))).
+Proof. exact ParseHeaderProof.diff_enum_params_exact. Qed.
+(* in the user's terms: a declared parameter that an unskipped field type mentions (a type parameter in the sense of param_used_exact,
+   a lifetime anywhere in the type, a const parameter as an array length at any depth) is declared by the diff enums *)
+Theorem mentioned_params_declared : forall dedup_ty dedup_lt fuel d p f, wf_decl fuel d ->
+  In p (params_of (d_generics d)) -> In f (unskipped d) -> mentions p (gf_ty f) ->
+  In (param_arg p) (map ident_only (diff_enum_params dedup_ty dedup_lt d)).
+Proof. exact ParseHeaderProof.mentioned_params_declared. Qed.
+(* (d) every use of the two diff enums of a struct - their definitions, the Into impl, `type Diff`, `type DiffRef` - applies them to exactly
+   the parameters they declare, in the same order ('__diff_target first for the borrowed one): no arity or order mismatch can arise *)
+Theorem diff_enum_uses_consistent : forall dedup_ty dedup_lt c gs d,
+  let st := expected dedup_ty dedup_lt d in
+  let hs := struct_headers c gs st in
+  let U := diff_enum_params dedup_ty dedup_lt d in
+  let E := diff_enum_name (attrs_expose (s_attrs st)) (d_name d) in
+  (exists pre w, nth_error hs 0 = Some (pre ++ (TId "pub" :: TId "enum" :: TId E :: nil) ++ angle (map ident_with_const U) ++ TId "where" :: w)) /\
+  (exists pre w, nth_error hs 1 = Some (pre ++ (TId "pub" :: TId "enum" :: TId (E ++ "Ref")%string :: nil) ++ angle (lt_target :: map ident_with_const U) ++ TId "where" :: w)) /\
+  (exists w, nth_error hs 2 = Some (TId "impl" :: angle (lt_target :: map ident_with_const U) ++ (TId "Into" :: TP PLt :: TId E :: nil) ++ angle (map ident_only U) ++
+                                      (TP PGt :: TId "for" :: TId (E ++ "Ref")%string :: nil) ++ angle (lt_target :: map ident_only U) ++ TId "where" :: w)) /\
+  nth_error hs 4 = Some ((TId "type" :: TId "Diff" :: TP PEq :: TId E :: nil) ++ angle (map ident_only U)) /\
+  (exists w, nth_error hs 5 = Some ((TId "type" :: TId "DiffRef" :: TP PLt :: nil) ++ lt_target ++ (TP PGt :: TP PEq :: TId (E ++ "Ref")%string :: nil) ++ angle (lt_target :: map ident_only U) ++ TId "where" :: w)).
+Proof. exact ParseHeaderProof.diff_enum_uses_consistent. Qed.
+(* non-vacuity: the example declaration above states four requirements (T: Clone, T: Default, Vec<T>: Clone, Vec<T>: 'a), and its impl header is
+   the one rustc sees. The two known gaps of the struct templates as the model shows them: ParseHeaderProof.d21_where_item_not_on_the_enum (finding D21:
+   a where-clause item a field type needs is not repeated on the diff enums) and d19_bound_mentions_undeclared (finding D19). *)
+Example ex_reqs : List.length (reqs (d_generics ex_decl)) = 4.
+Proof. reflexivity. Qed.
+Example ex_impl_header :
+  nth_error (struct_headers (Build_hcfg false false false) true (expected (fun x => x) (fun x => x) ex_decl)) 3 =
+  Some (TId "impl" :: TP PLt :: TP PQuote :: TId "a" :: TP PComma :: TId "T" :: TP PComma :: TId "const" :: TId "N" :: TP PColon :: TId "usize" :: TP PGt ::
+        TId "StructDiff" :: TId "for" :: TId "S" :: TP PLt :: TP PQuote :: TId "a" :: TP PComma :: TId "T" :: TP PComma :: TId "N" :: TP PGt :: TId "where" ::
+        TId "T" :: TP PColon :: TId "Clone" :: TP PPlus :: TId "Default" :: TP PPlus ::
+        (pth ("core" :: "clone" :: "Clone" :: nil) ++ TP PPlus :: pth ("core" :: "cmp" :: "PartialEq" :: nil) ++ TP PComma ::
+         TId "Vec" :: TP PLt :: TId "T" :: TP PGt :: TP PColon :: TId "Clone" :: TP PPlus :: TP PQuote :: TId "a" :: nil))%string.
+Proof. vm_compute. reflexivity. Qed.
 (* the finding the proof produced: `&&T` is not consumed as one type (the real parser then panics on the leftover) *)
 Example nested_ref_not_one_type :
   next_type 5 (lex (GRef None (GRef None (GPath "T" nil nil)))) = Ok (Some (Ty CUnNamed None (Some None) None)) (TP PAmp :: TId "T" :: nil).
@@ -161,3 +225,8 @@ Print Assumptions used_lifetimes_exact.
 Print Assumptions array_lens_exact.
 Print Assumptions enum_parse_complete.
 Print Assumptions param_used_exact.
+Print Assumptions struct_impl_headers_good.
+Print Assumptions enum_impl_header_good.
+Print Assumptions diff_enum_params_exact.
+Print Assumptions mentioned_params_declared.
+Print Assumptions diff_enum_uses_consistent.
